@@ -75,7 +75,23 @@ impl ClassSet {
         }
     }
 
+    // A string of one character is that character: move such strings (a property of strings
+    // contributes them) into the code points, so that complementing the class covers them.
+    fn absorb_single_characters(&mut self) {
+        let mut singles = Vec::new();
+        self.alternatives.0.retain(|s| {
+            if s.len() == 1 {
+                singles.push(s[0]);
+            }
+            s.len() != 1
+        });
+        for c in singles {
+            self.codepoints.add_one(c);
+        }
+    }
+
     fn node(mut self, icase: bool, negate_set: bool) -> ir::Node {
+        self.absorb_single_characters();
         // Longest strings first, then single characters, then the empty string.
         let has_empty = self.alternatives.0.iter().any(|s| s.is_empty());
         self.alternatives.0.retain(|s| !s.is_empty());
@@ -1249,6 +1265,7 @@ where
                     if result.may_contain_strings {
                         return error("Negated class may not contain strings");
                     }
+                    result.absorb_single_characters();
                     // The complement is taken after case folding (CharacterComplement of the
                     // folded set).
                     if self.flags.icase {
